@@ -158,6 +158,21 @@ func (c *memConn) allWritten() []byte {
 	}
 	return out
 }
+
+// writtenMsgs: what the transport was given, cut into messages by declared length
+func (c *memConn) writtenMsgs() [][]byte {
+	log := c.allWritten()
+	var out [][]byte
+	for o := 0; o+20 <= len(log); {
+		l := int(log[o+1])<<16 | int(log[o+2])<<8 | int(log[o+3])
+		if l < 20 || o+l > len(log) {
+			break
+		}
+		out = append(out, log[o:o+l])
+		o += l
+	}
+	return out
+}
 func (c *memConn) nWrites() int { c.mu.Lock(); defer c.mu.Unlock(); return len(c.written) }
 
 // idle: every byte delivered has been taken and a reader is parked (or the conn is finished)
